@@ -56,6 +56,10 @@ Definition create_pkt_127 (sf : N) (implicit : bool) : option rerr := if (sf =? 
 Definition set_standby_127 : prog unit := wreg s7_Register_RegOpMode (N.lor s7_LoRaMode_Standby 0x80) ;;; iv IvSwOff.
 Definition set_sleep_127 : prog unit := iv IvSwOff ;;; spi_write [N.lor s7_Register_RegOpMode 0x80; N.lor s7_LoRaMode_Sleep 0x80] true.
 Definition reset_127 : prog unit := iv IvReset ;;; set_sleep_127.
+(* ensure_ready(mode): a chip the driver believes asleep is told to sleep in LoRa mode (again) before it is woken: LongRangeMode is only
+   writable in sleep mode, and a reset sequence that failed half-way leaves the chip in FSK standby *)
+Definition ensure_ready_127 (sleeping : bool) : prog unit :=
+  if sleeping then spi_write [N.lor s7_Register_RegOpMode 0x80; N.lor s7_LoRaMode_Sleep 0x80] true else Ret tt.
 
 Definition set_ocp (trim : N) : prog unit := wreg s7_Register_RegOcp (N.lor trim 0x20).
 Definition clampz (lo hi x : Z) : Z := Z.max lo (Z.min hi x).
